@@ -39,8 +39,8 @@ type macroWorld struct {
 	steps  int
 }
 
-func symSx(s string) *sx     { return &sx{kind: "sym", text: s} }
-func listSx(it ...*sx) *sx   { return &sx{kind: "list", items: it} }
+func symSx(s string) *sx   { return &sx{kind: "sym", text: s} }
+func listSx(it ...*sx) *sx { return &sx{kind: "list", items: it} }
 func boolSx(b bool) *sx {
 	if b {
 		return symSx("true")
@@ -536,14 +536,19 @@ func macroTailRule(w *World, r *Report, rule string) {
 	mw := &macroWorld{macros: map[string]*lfn{}}
 	where := map[string]string{}
 	root := &lenv{vars: map[string]interface{}{}}
+	type mdef struct {
+		fn    *lfn
+		where string
+	}
+	defs := map[string][]mdef{}
 	for _, f := range files {
 		for _, form := range f.forms {
 			form.walk(func(s *sx) {
 				if s.head() == "defmacro" && len(s.items) == 3 && s.items[1].kind == "sym" && s.items[2].head() == "fn" && len(s.items[2].items) >= 3 {
-					mw.macros[s.items[1].text] = &lfn{params: s.items[2].items[1], body: s.items[2].items[2:], env: root}
-					if _, dup := where[s.items[1].text]; !dup {
-						where[s.items[1].text] = fmt.Sprintf("%s:%d", f.path, s.line)
-					}
+					d := mdef{&lfn{params: s.items[2].items[1], body: s.items[2].items[2:], env: root}, f.path + ":" + s.items[1].text}
+					defs[s.items[1].text] = append(defs[s.items[1].text], d)
+					mw.macros[s.items[1].text] = d.fn
+					where[s.items[1].text] = d.where
 				}
 			})
 		}
@@ -582,18 +587,23 @@ func macroTailRule(w *World, r *Report, rule string) {
 			r.addRaw(rule, "-", "macro "+c.macro, "-", "undecided", "macro not defined in the embedded headers")
 			continue
 		}
-		for _, t := range c.targets {
-			n++
-			mw.steps, mw.gens = 0, 0
-			construct := fmt.Sprintf("(%s …) with %d operands: %s", c.macro, len(c.form.items)-1, t)
-			s, err := mw.nonTail(c.form, t, 0)
-			switch {
-			case err != nil:
-				r.addRaw(rule, where[c.macro], construct, where[c.macro], "undecided", "the symbolic expander cannot expand this macro: "+err.Error())
-			case s != "":
-				r.addRaw(rule, where[c.macro], construct, where[c.macro], "violated", "the operand ends up "+s+": it is evaluated by a nested EVAL, so a loop recursing through it grows the host stack")
-			default:
-				r.addRaw(rule, where[c.macro], construct, where[c.macro], "discharged", "in tail position of the expansion")
+		// every definition of the macro (cond is defined in the header and in bootstrap.lisp) is checked
+		for _, d := range defs[c.macro] {
+			mw.macros[c.macro] = d.fn
+			where[c.macro] = d.where
+			for _, t := range c.targets {
+				n++
+				mw.steps, mw.gens = 0, 0
+				construct := fmt.Sprintf("(%s …) with %d operands: %s", c.macro, len(c.form.items)-1, t)
+				s, err := mw.nonTail(c.form, t, 0)
+				switch {
+				case err != nil:
+					r.addRaw(rule, where[c.macro], construct, where[c.macro], "undecided", "the symbolic expander cannot expand this macro: "+err.Error())
+				case s != "":
+					r.addRaw(rule, where[c.macro], construct, where[c.macro], "violated", "the operand ends up "+s+": it is evaluated by a nested EVAL, so a loop recursing through it grows the host stack")
+				default:
+					r.addRaw(rule, where[c.macro], construct, where[c.macro], "discharged", "in tail position of the expansion")
+				}
 			}
 		}
 	}
